@@ -74,7 +74,34 @@ def bootstrap(hashseed: str | None = None):
     loc = os.path.abspath(kernpy.__file__)
     if not loc.startswith(src + os.sep):
         raise HarnessError(f'kernpy resolved to {loc}, expected under {src}')
+    prewarm(kernpy)
     return kernpy
+
+
+def prewarm(kp):
+    """Warm the ANTLR prediction caches in the parent, once, with a fixed corpus, so that every chunk child (a fresh fork of
+    this image) starts warm. Deterministic; identical for batch runs and for replay. Failures are ignored: on a broken tree
+    the checks themselves will report."""
+    import random
+    from . import docgen
+    try:
+        for i in range(100):
+            rng = random.Random(900000 + i)
+            d = docgen.gen_doc(rng, docgen.swarm_features(rng, combining_sigs=(i % 5 == 0)))
+            try:
+                doc, _ = kp.loads(d.render())
+                kp.dumps(doc)
+                kp.dumps(doc, encoding=kp.Encoding.eKern)
+            except Exception:
+                pass
+        imp = kp.KernSpineImporter()
+        for t in ('4c€', '4czz', '=1zz', '*clef', '4c 4', '#4c', '*xywh-1:1,2', 'q', '4c@', '16%', '*M4/', '*k[f#', '*>[A'):
+            try:
+                imp.import_token(t)
+            except Exception:
+                pass
+    except Exception:
+        pass
 
 
 # --------------------------------------------------------------------------------------------
@@ -130,6 +157,37 @@ def _run_one(check, known, seed, index, tier):
 
 
 def _work(job):
+    """Run one chunk in a FRESH FORK of the pristine (post-bootstrap) process image.
+
+    Process-global state of the tree under test (caches, class attributes, counters) can then leak between the runs
+    of one chunk only - in index order, independent of worker count - so a violation that depends on it is replayable
+    from the literal plans of the preceding runs of its chunk (see _minimise_and_write / replay)."""
+    import pickle
+    sys.stdout.flush()
+    sys.stderr.flush()
+    r, w = os.pipe()
+    pid = os.fork()
+    if pid == 0:
+        os.close(r)
+        try:
+            try:
+                data = pickle.dumps(_run_chunk(job))
+            except BaseException as e:  # noqa
+                data = pickle.dumps({'fatal': ''.join(traceback.format_exception(type(e), e, e.__traceback__))[-4000:], 'first': job[2][0]})
+            with os.fdopen(w, 'wb') as f:
+                f.write(data)
+        finally:
+            os._exit(0)
+    os.close(w)
+    with os.fdopen(r, 'rb') as f:
+        data = f.read()
+    os.waitpid(pid, 0)
+    if not data:
+        return {'fatal': f'chunk child for runs {job[2][0]}.. died without a result (killed or timed out)', 'first': job[2][0]}
+    return pickle.loads(data)
+
+
+def _run_chunk(job):
     """Execute one chunk of run indices and return its aggregate (memory stays flat for million-run batches)."""
     import hashlib
     seed, tier, indices = job
@@ -172,7 +230,7 @@ def _work(job):
                     agg['unlisted_n'] += 1
                     agg['unlisted_sigs'][v['signature']] += 1
                     if len(agg['unlisted']) < 4:
-                        agg['unlisted'].append((i, v.get('seq', 0), v, plan))
+                        agg['unlisted'].append((i, v.get('seq', 0), v, plan, indices[0]))
     finally:
         faulthandler.cancel_dump_traceback_later()
     agg['digest'] = h.hexdigest()
@@ -245,8 +303,11 @@ def run_batch(check, tier: str, seed: int, runs: int | None = None, start: int =
                     p.cancel()
     results.sort(key=lambda r: r['first'])
     for r in results:
-        harness_errors.extend(r['harness_errors'])
-    good = results
+        if 'fatal' in r:
+            harness_errors.append(f'chunk starting at run {r["first"]}: {r["fatal"]}')
+        else:
+            harness_errors.extend(r['harness_errors'])
+    good = [r for r in results if 'fatal' not in r]
     wall = time.time() - t0
     return _finish(check, tier, seed, start, runs, good, harness_errors, truncated, wall, known, workers, write_evidence, quiet)
 
@@ -286,7 +347,7 @@ def _finish(check, tier, seed, start, runs, good, harness_errors, truncated, wal
         extras.extend(r['extras'])
     unlisted.sort(key=lambda t: (t[0], t[1]))
     if os.environ.get('VERIF_VERBOSE') == '1':
-        for run_i, seq, v, _plan in unlisted[:40]:
+        for run_i, seq, v, _plan, _cf in unlisted[:40]:
             log(f'  [unlisted] run={run_i} seq={seq} sig={v["signature"]} expected={str(v.get("expected"))[:300]!r} actual={str(v.get("actual"))[:300]!r}')
     batch_digest = digest_of(digests)
 
@@ -303,8 +364,7 @@ def _finish(check, tier, seed, start, runs, good, harness_errors, truncated, wal
     replay_path = None
     if unlisted:
         rc = 1
-        run_i, seq, v, plan = unlisted[0]
-        replay_path = _minimise_and_write(check, seed, tier, run_i, v, plan, known)
+        run_i, seq, v, plan, replay_path = _report_first_reproducible(check, seed, tier, unlisted, known)
         out_lines.append(f'VIOLATION property={prop} replay={replay_path}')
         log(f'violation class={v["class"]} signature={v["signature"]} run={run_i} seq={seq}')
         log(f'  expected: {json.dumps(v.get("expected"), ensure_ascii=False, default=str)[:600]}')
@@ -382,52 +442,96 @@ def _finish(check, tier, seed, start, runs, good, harness_errors, truncated, wal
 # minimisation and replay
 # --------------------------------------------------------------------------------------------
 
-def _same_signature(check, known, plan, signature):
-    try:
-        res = check.execute(plan)
-    except Exception:
-        return False
-    for v in res.get('violations', []):
-        if v['signature'] == signature and classify(check, v, known) is None:
-            return True
-    return False
+def eval_isolated(check, known, preceding, plan, signature, timeout=300):
+    """Execute ``preceding`` plans and then ``plan`` in a fresh fork of this process; return the first unlisted violation of
+    the last plan whose signature equals ``signature`` (or None), plus all signatures seen. Every evaluation of the
+    minimiser and of replay goes through here, so candidates never contaminate each other."""
+    import pickle
+    sys.stdout.flush()
+    sys.stderr.flush()
+    r, w = os.pipe()
+    pid = os.fork()
+    if pid == 0:
+        os.close(r)
+        out = {'hit': None, 'sigs': [], 'error': None}
+        try:
+            faulthandler.dump_traceback_later(timeout, exit=True)
+            for p in preceding:
+                try:
+                    check.execute(p)
+                except BaseException:  # noqa - a preceding run only matters for the state it leaves behind
+                    pass
+            res = check.execute(plan)
+            for v in res.get('violations', []):
+                out['sigs'].append(v['signature'])
+                if out['hit'] is None and (signature is None or v['signature'] == signature) and classify(check, v, known) is None:
+                    out['hit'] = v
+        except BaseException as e:  # noqa
+            out['error'] = repr(e)[:300]
+        try:
+            with os.fdopen(w, 'wb') as f:
+                f.write(pickle.dumps(out))
+        finally:
+            os._exit(0)
+    os.close(w)
+    with os.fdopen(r, 'rb') as f:
+        data = f.read()
+    os.waitpid(pid, 0)
+    if not data:
+        return {'hit': None, 'sigs': [], 'error': 'child died'}
+    return pickle.loads(data)
 
 
-def _minimise_and_write(check, seed, tier, run_i, v, plan, known):
-    from .ddmin import Budget
+def _report_first_reproducible(check, seed, tier, unlisted, known):
+    """Walk the unlisted violations in (run, seq) order and report the first one that reproduces in isolation: alone, or -
+    when it depends on process-global state left behind by earlier runs of its chunk - after those runs' literal plans."""
+    tried = 0
+    for run_i, seq, v, plan, chunk_first in unlisted[:8]:
+        tried += 1
+        sig = v['signature']
+        if eval_isolated(check, known, [], plan, sig)['hit'] is not None:
+            return run_i, seq, v, plan, _minimise_and_write(check, seed, tier, run_i, v, plan, known, [])
+        preceding = [check.gen_plan(seed, j, tier) for j in range(chunk_first, run_i)]
+        if preceding and eval_isolated(check, known, preceding, plan, sig)['hit'] is not None:
+            log(f'note: violation of run {run_i} depends on state left by earlier runs of its chunk ({chunk_first}..{run_i - 1}); they are part of the replay')
+            return run_i, seq, v, plan, _minimise_and_write(check, seed, tier, run_i, v, plan, known, preceding)
+        log(f'warning: violation {sig} of run {run_i} did not reproduce in isolation; trying the next one')
+    run_i, seq, v, plan, chunk_first = unlisted[0]
+    log('warning: none of the first unlisted violations reproduced in isolation; reporting the first one unminimised')
+    return run_i, seq, v, plan, _minimise_and_write(check, seed, tier, run_i, v, plan, known, [], reproducible=False)
+
+
+def _minimise_and_write(check, seed, tier, run_i, v, plan, known, preceding, reproducible=True):
+    from .ddmin import Budget, ddmin_list
     sig = v['signature']
     minimised = plan
     steps = 0
     t0 = time.time()
     budget = Budget(int(os.environ.get('VERIF_SHRINK_BUDGET', '400')))
     deadline = t0 + float(os.environ.get('VERIF_SHRINK_WALL_S', '240'))
+    prec = list(preceding)
 
-    def still_fails(p):
+    def fails_with(pre, p):
         nonlocal steps
         if time.time() > deadline:
             return False
         steps += 1
-        return _same_signature(check, known, p, sig)
+        return eval_isolated(check, known, pre, p, sig)['hit'] is not None
 
-    try:
-        if _same_signature(check, known, plan, sig):
-            minimised = check.shrink(plan, still_fails, budget)
-            if not _same_signature(check, known, minimised, sig):
-                minimised = plan
-        else:
-            log('warning: violation did not reproduce in the parent process before minimisation')
-    except Exception as e:
-        log(f'warning: minimiser failed ({e!r}); reporting the unminimised plan')
-        minimised = plan
-    # re-execute to record the violation as the minimised plan shows it
+    if reproducible:
+        try:
+            if prec:
+                prec = ddmin_list(prec, lambda pre: fails_with(pre, plan), budget, min_len=1)
+            cand = check.shrink(plan, lambda p: fails_with(prec, p), budget)
+            if fails_with(prec, cand) or eval_isolated(check, known, prec, cand, sig)['hit'] is not None:
+                minimised = cand
+        except Exception as e:
+            log(f'warning: minimiser failed ({e!r}); reporting the unminimised plan')
+            minimised = plan
     final_v = v
-    try:
-        for vv in check.execute(minimised).get('violations', []):
-            if vv['signature'] == sig:
-                final_v = vv
-                break
-    except Exception:
-        pass
+    r = eval_isolated(check, known, prec, minimised, sig)
+    if r['hit'] is not None:
+        final_v = r['hit']
     os.makedirs(os.path.join(REPLAY_DIR, check.PROPERTY), exist_ok=True)
     path = os.path.join(REPLAY_DIR, check.PROPERTY, f'{seed}-{run_i}.json')
     doc = {
@@ -440,9 +544,13 @@ def _minimise_and_write(check, seed, tier, run_i, v, plan, known):
         'class': final_v['class'],
         'signature': sig,
         'violation': {k: final_v.get(k) for k in ('class', 'signature', 'seq', 'expected', 'actual', 'detail')},
-        'minimised': minimised is not plan,
+        'minimised': minimised is not plan or len(prec) != len(preceding),
+        'reproduced_in_isolation': r['hit'] is not None,
         'shrink_evaluations': steps,
         'shrink_wall_s': round(time.time() - t0, 2),
+        'preceding_plans': prec,
+        'preceding_note': ('the violation depends on process-global state left behind by these earlier runs of the same chunk; '
+                           'replay executes them first, in this order, in one fresh process') if prec else None,
         'plan': minimised,
         'original_plan': plan if minimised is not plan else None,
         'how_to_replay': f'./check {check.PROPERTY} --replay <this file>',
@@ -457,11 +565,13 @@ def replay(check, path: str) -> int:
     with open(path, encoding='utf-8') as f:
         doc = json.load(f)
     known = load_known(check.PROPERTY)
-    res = check.execute(doc['plan'])
-    hits = [v for v in res.get('violations', []) if v['signature'] == doc['signature']]
-    log(f'replay {path}: expecting signature {doc["signature"]}')
-    if hits:
-        v = hits[0]
+    log(f'replay {path}: expecting signature {doc["signature"]}' + (f' after {len(doc["preceding_plans"])} preceding run(s)' if doc.get('preceding_plans') else ''))
+    r = eval_isolated(check, [], doc.get('preceding_plans') or [], doc['plan'], doc['signature'])
+    if r['error']:
+        log(f'HARNESS-ERROR while replaying: {r["error"]}')
+        return 2
+    if r['hit'] is not None:
+        v = r['hit']
         log(f'reproduced: class={v["class"]} signature={v["signature"]} seq={v.get("seq")}')
         log(f'  expected: {json.dumps(v.get("expected"), ensure_ascii=False, default=str)[:1500]}')
         log(f'  actual:   {json.dumps(v.get("actual"), ensure_ascii=False, default=str)[:1500]}')
@@ -471,8 +581,7 @@ def replay(check, path: str) -> int:
             return 0
         print(f'VIOLATION property={check.PROPERTY} replay={path}')
         return 1
-    others = [v['signature'] for v in res.get('violations', [])]
-    log(f'did not reproduce (other signatures seen: {others[:5]})')
+    log(f'did not reproduce (other signatures seen: {r["sigs"][:5]})')
     return 2
 
 
